@@ -92,6 +92,19 @@ MUTANTS = [
     ("mlcl-validator-direct-only", "gemclus/mlcl.py",
      "            if pair_i in component and pair_j in component:",
      "            if pair_i in component and pair_j in component and len(component) == 2:", ["C14"]),
+    ("batchify-drop-tail", "gemclus/_base_gemini.py", "        while j < len(X):\n            batch_indices",
+     "        while j + batch_size <= len(X) or j == 0:\n            batch_indices", ["C10"]),
+    ("batchify-affinity-rows-only", "gemclus/_base_gemini.py",
+     "affinity_batch = affinity_matrix[batch_indices][:, batch_indices]",
+     "affinity_batch = affinity_matrix[batch_indices][:, :len(batch_indices)]", ["C10"]),
+    ("mlcl-batch-sorted-rows", "gemclus/mlcl.py", "                yield X[subset], affinity_batch",
+     "                yield X[np.sort(subset)], affinity_batch", ["C10"]),
+    ("valscore-offdiag-block", "gemclus/sparse/_base_sparse.py", "affinity = y[j:j+batch_size][:,j:j+batch_size]",
+     "affinity = y[j:j+batch_size][:,:len(y[j:j+batch_size])]", ["C10"]),
+    ("fit-one-epoch-less", "gemclus/_base_gemini.py", "        for i in range(self.max_iter):\n            # Create batches",
+     "        for i in range(self.max_iter - (self.max_iter > 3)):\n            # Create batches", ["C10", "C04"]),
+    ("batchify-overlap", "gemclus/_base_gemini.py", "            j += batch_size\n",
+     "            j += batch_size if batch_size < 3 else batch_size - 1\n", ["C10"]),
 ]
 
 
